@@ -31,6 +31,8 @@ FORBIDDEN = re.compile(
 )
 
 # axioms declared by the Coq standard library that a theorem over R / classical reals may use
+# the standard library's specification axioms of the primitive floats (Coq.Floats.FloatAxioms), used through Flocq
+STDLIB_AXIOMS_FLOATS = {"FloatAxioms.*"}
 STDLIB_AXIOMS_REALS = {
     "ClassicalDedekindReals.sig_forall_dec",
     "ClassicalDedekindReals.sig_not_dec",
@@ -322,7 +324,8 @@ class Run:
             detail = ""
             good = ok2
             if axs:
-                unexpected = [a for a in axs if a not in allowed_axioms and not _is_primitive(a)]
+                unexpected = [a for a in axs if a not in allowed_axioms and not _is_primitive(a)
+                              and not any(x.endswith("*") and a.startswith(x[:-1]) for x in allowed_axioms)]
                 if unexpected:
                     good = False
                     detail = "unexpected axioms: " + ", ".join(unexpected)
